@@ -33,7 +33,7 @@ SimCmd(q, s) ==
      ELSE Cmd(a, CHOOSE x \in IdModes(a) : x # "dup")
 
 SimConnect(s) == ~auth /\ \E im \in {"fresh"} :
-                   Cmd(Sym("connect", IF s = 1 THEN Sel(<<"err", "disc", "nocred", "ok">>, H(s), 1) ELSE "ok", "ok"), im)
+                   Cmd(Sym("connect", IF s = 1 THEN Sel(<<"err", "disc", "nocred", "sserr", "ssdisc", "sserr", "ok">>, H(s), 1) ELSE "ok", "ok"), im)
 
 SimComplete(s) ==
   /\ pend # {}
